@@ -46,6 +46,25 @@ fn main() {
             out.flush().unwrap();
             eprintln!("replayed {} histories", n);
         }
+        "classes" => {
+            // every (display width | none, combining?) class the two crates define, with its size and first members
+            use unicode_normalization::char::is_combining_mark;
+            use unicode_width::UnicodeWidthChar;
+            let mut m: std::collections::BTreeMap<(i32, bool), (u32, Vec<u32>)> = Default::default();
+            for cp in 0u32..0x110000 {
+                if let Some(c) = char::from_u32(cp) {
+                    let k = (c.width().map(|w| w as i32).unwrap_or(-1), is_combining_mark(c));
+                    let e = m.entry(k).or_insert((0, vec![]));
+                    e.0 += 1;
+                    if e.1.len() < 8 {
+                        e.1.push(cp);
+                    }
+                }
+            }
+            for ((w, cm), (n, first)) in m {
+                println!("width={} comb={} count={} first={:x?}", w, cm, n, first);
+            }
+        }
         "gen" => {
             if args.len() < 6 {
                 usage();
